@@ -890,6 +890,17 @@ class Engine:
     def ev_Attribute(self, node, st):
         out = []
         for s, v in self.ev(node.value, st):
+            if not self.pure and isinstance(v, (Ref, Rec)):
+                # a property whose body can raise: execute it path by path so that its exceptions are real outcomes
+                cls = v.cls
+                fields = s.heap[v.oid].fields if isinstance(v, Ref) else v.fields
+                if node.attr not in fields:
+                    ent = self.find_method(cls, node.attr)
+                    if ent is not None and ent[2] is not None and any(isinstance(d, ast.Name) and d.id == 'property' for d in ent[2].decorator_list) \
+                            and any(isinstance(n_, (ast.Raise, ast.Assert)) for n_ in ast.walk(ent[2])):
+                        for s2, val in self.inline_call(UserFn(ent[0], ent[1], ent[2], v), [], {}, s, node, merge=False):
+                            out.append((s2, val))
+                        continue
             out.append((s, self.getattr(v, node.attr, s, node)))
         return out
 
@@ -905,6 +916,8 @@ class Engine:
                     return self.module_const(mod, q)
                 if any(isinstance(d, ast.Name) and d.id == 'property' for d in fnode.decorator_list):
                     rs = self.inline_call(UserFn(mod, q, fnode, v), [], {}, st, node, merge=True)
+                    if not rs:
+                        raise Unsupported('property %s.%s has no normal path here' % (o.cls, attr))
                     return rs[0][1]
                 if any(isinstance(d, ast.Name) and d.id == 'staticmethod' for d in fnode.decorator_list):
                     return UserFn(mod, q, fnode)
